@@ -45,6 +45,17 @@ def one(case):
         radii = np.array(radii, dtype=float)
     before = (at.get_positions().copy(), at.get_cell().array.copy(), at.get_pbc().copy(), at.get_atomic_numbers().copy())
     rad_before = None if isinstance(radii, str) else radii.copy()
+    if case.get("twin", case["id"] % 4 == 1) and any(case["pbc"]):
+        # process history: a TWIN structure first -- same edge lengths, pbc, radii, threshold and number of atoms, orthogonal cell
+        try:
+            cell0 = np.array(case["cell"], dtype=float)
+            if abs(np.linalg.det(cell0)) > 1e-9:
+                twin_cell = np.diag(np.linalg.norm(cell0, axis=1))
+                sc = np.linalg.solve(cell0.T, np.array(case["positions"], dtype=float).T).T
+                tw = Atoms(numbers=numbers, positions=sc @ twin_cell, cell=twin_cell, pbc=case["pbc"])
+                G.get_dimensionality(tw, case["thr"], radii=radii)
+        except Exception:
+            pass
     if case["id"] % 4 == 0:
         # process history: the same structure is measured with other thresholds / radii / return flags first, the
         # returned cluster lists are overwritten by the caller, other entry points run on a copy
